@@ -67,7 +67,63 @@ func (c *ctx) rejectedWalk(kind string, n int) {
 	}
 }
 
+// walkCases: the client's walk over packets of decodable, undecodable (no record in the client) and short-data kinds in any
+// order; the scan is called again after it has refused a packet (it must move on, never deliver one twice).
+func (c *ctx) walkCases(n int) {
+	for i := 0; i < n; i++ {
+		var payload []byte
+		np := 1 + c.rng.Intn(6)
+		for k := 0; k < np; k++ {
+			payload = append(payload, c.packet([]int{0, 0, 1, 2, 2, 3}[c.rng.Intn(6)])...)
+		}
+		if c.rng.Intn(5) == 0 {
+			payload = payload[:c.rng.Intn(len(payload)+1)]
+		}
+		stream := []byte(xsens.NewMessage(xsens.MessageIdentifierMTData2, payload))
+		ops := []cop{{kind: "receive"}}
+		for k := 0; k < np+3; k++ {
+			ops = append(ops, cop{kind: "scan"}, cop{kind: "rawpkt"}, cop{kind: "dtype"})
+		}
+		c.emitClient("client", stream, nil, io.EOF, false, nil, ops)
+	}
+}
+
+// reidentified: a packet built for one identifier and then given another one with SetIdentifier is the packet built for
+// the second one - nothing of the first identifier's format bits stays behind.
+func (c *ctx) reidentified(n int) {
+	for i := 0; i < n; i++ {
+		w1 := uint16(c.rng.Intn(65536))
+		if c.rng.Intn(3) == 0 {
+			w1 |= 0x00ff // every format bit set
+		}
+		w2 := []uint16{0x2010, 0x4020 | 3, 0xe020, 0x1020, uint16(c.rng.Intn(65536)) & 0xf8ff, uint16(c.rng.Intn(65536)) & 0xf8f0}[c.rng.Intn(6)]
+		ln := c.rng.Intn(256)
+		var id1, id2 xsens.DataIdentifier
+		id1.SetUint16(w1)
+		id2.SetUint16(w2)
+		r := "OP"
+		var p xsens.MTData2Packet
+		if pan, _ := protect(func() {
+			p = xsens.NewMTData2Package(uint8(ln), id1)
+			p.SetIdentifier(id2)
+		}); !pan {
+			r = "(OB " + nlist(p) + ")"
+		}
+		c.emit("newpkt", tup(us(uint64(ln)), us(uint64(w2)), r))
+		c.count("packet-reidentified")
+	}
+}
+
 func init() {
+	for _, id := range []string{"C07", "C11"} {
+		inner := props[id]
+		props[id] = func(c *ctx) { inner(c); c.reidentified(c.pick(300, 3000)) }
+	}
+	// the walk is also how C12's "non-zero size <=> the client can decode" and C19's records are reached
+	for _, id := range []string{"C12", "C19"} {
+		inner := props[id]
+		props[id] = func(c *ctx) { inner(c); c.walkCases(c.pick(100, 1000)) }
+	}
 	for _, id := range []string{"C02", "C03", "C07", "C09", "C19"} {
 		inner := props[id]
 		props[id] = func(c *ctx) { inner(c); c.rejectedWalk("client", c.pick(40, 400)) }
